@@ -35,7 +35,10 @@
 
 #include "common/session.h"
 #include "common/wirepeer.h"
+#include "download/chunk_selector.h"
+#include "download/chunk_statistics.h"
 #include "download/delegator.h"
+#include "protocol/peer_chunks.h"
 #include "download/download_main.h"
 #include "protocol/peer_connection_base.h"
 #include "protocol/request_list.h"
@@ -459,6 +462,18 @@ bool do_op(Case& c, const std::string& o, std::string& err) {
       }
     }
     flush_quiet(c);
+    if (!finished() && getenv("LTV_C04_DEBUG")) {
+      auto* cs = c.T->main()->chunk_selector();
+      auto* st = c.T->main()->chunk_statistics();
+      auto* d = c.T->main()->file_list()->mutable_data();
+      fprintf(stderr, "[dbg] stuck: position=%u complete=%u accounted=%u untouched=", cs->m_position, (unsigned)st->complete(), (unsigned)st->accounted());
+      for (uint32_t i = 0; i < c.T->piece_count(); i++) fprintf(stderr, "%d", (int)d->untouched_bitfield()->get(i));
+      fprintf(stderr, " rarity=");
+      for (uint32_t i = 0; i < c.T->piece_count(); i++) fprintf(stderr, "%u.", (unsigned)st->rarity(i));
+      torrent::PeerConnectionBase* pcb = find_conn(c.S, c.T, p, sp.port);
+      if (pcb) fprintf(stderr, " seeder=%d cache_enabled=%d", (int)pcb->m_peer_chunks.is_seeder(), (int)pcb->m_peer_chunks.download_cache()->is_enabled());
+      fprintf(stderr, "\n");
+    }
     c.ev.push_back(std::string("QD:") + (finished() ? "1" : "0"));
   } else {
     err = "BADCASE";
